@@ -76,6 +76,7 @@ CATALOGUE = [
     ("pretty-max-length-count", "C16", "pretty.py", "append(Node(value_repr=f\"... +{num_items-max_length}\", last=True))", "append(Node(value_repr=f\"... +{num_items-max_length+1}\", last=True))"),
     # ---- C01 / C08 / C09 / C07
     ("table-own-width-ignored-when-measuring-columns", "C07", "table.py", "        max_width = options.max_width\n        if self.width is not None:\n            max_width = self.width\n\n        extra_width", "        max_width = options.max_width\n        if self.width is not None and self.expand is True and self._expand:\n            max_width = self.width\n\n        extra_width"),
+    ("padding-indent-expands", "C08", "padding.py", "return Padding(renderable, pad=(0, 0, 0, level), expand=False)", "return Padding(renderable, pad=(0, 0, 0, level), expand=True)"),
     ("padding-forgets-right", "C01", "padding.py", "child_options = options.update(width=width - self.left - self.right)", "child_options = options.update(width=width - self.left)"),
     ("tree-prefix-not-subtracted", "C01", "tree.py", "                    - sum(level.cell_length for level in prefix),", "                    - sum(level.cell_length for level in prefix[1:]),"),
     ("panel-child-width-off-by-one", "C08", "panel.py", "            width - 2\n            if self.expand", "            width - 1\n            if self.expand"),
